@@ -2,8 +2,9 @@
    CHANGES of the reference model of C04 (Spec/HostTracking.v), not from the code's dirty flags.
 
    Discipline of the property: Notify directly after each Parse, channel drained after every step.
-   A disciplined history is a list of units: a frame (Parse;Notify), a purge, or an API call that
-   the text does not connect with notifications (Capture, Release). DHCP offers (SetDHCPv4IPOffer,
+   A disciplined history is a list of units: a frame (Parse;Notify), a purge, a name update through one of
+   the five Update*Name methods, or an API call that the text does not connect with notifications
+   (Capture, Release). DHCP offers (SetDHCPv4IPOffer,
    DHCPv4Update) are outside this fragment: without them the DHCP path of Notify is silent.
    * frame from (m,k), creation rule fires:
        - every IPv4 address of m that this sighting turns offline: one offline notification, first;
@@ -11,6 +12,11 @@
          ("not current"), or if its registration by NewSession was never announced ([owed]);
        - repeat traffic: nothing.
    * purge: one offline notification per address that ages out (any order; compared sorted).
+   * name update of a tracked address that changes the learned name: one further notification is OWED to
+     that address.  It is delivered with the next notification about the address: its next frame (repeat
+     traffic then is not quiet), its return from offline, its ageing, or -- when the address is offline --
+     together with the offline notifications that precede the online notification of a new IPv4 address of
+     the same MAC (library convention: "notify previous IP4 is offline").
    Readings: re-binding announces the address online under the new MAC and says nothing about the
    old binding (the text is silent; library convention); the two addresses NewSession registers
    are announced with their first frame. *)
@@ -20,9 +26,10 @@ Open Scope N_scope.
 Inductive unit6 : Set :=
 | UFrame (f : fsum) (now : Z)
 | UPurge (now : Z)
+| UName (kd : nkind) (k : ip) (name : N)
 | UOther.
 
-Record rstate : Type := { r_map : amap; r_owed : list ip }.
+Record rstate : Type := { r_map : amap; r_owed : list ip; r_names : ip -> names }.
 
 Definition remove_ip (k : ip) (l : list ip) : list ip := filter (fun x => negb (ip_eqb x k)) l.
 
@@ -36,6 +43,25 @@ Definition flipb (a a' : amap) (x : ip) : bool :=
 Definition currentb (a : amap) (m : mac) (k : ip) : bool :=
   match a k with Some e => (a_mac e =? m) && a_online e | None => false end.
 
+(* x is (after the sighting) an offline address of MAC m *)
+Definition sib_off (m : mac) (a' : amap) (x : ip) : bool :=
+  match a' x with Some e' => (a_mac e' =? m) && negb (a_online e') | None => false end.
+
+(* the offline notification about another address x that a frame from (m,k) carries along: x was turned offline
+   by this sighting, or x is an offline address of m to which a notification is still owed and k is a new IPv4
+   address of m *)
+Definition sibling_due (a a' : amap) (owed : list ip) (m : mac) (k x : ip) : bool :=
+  negb (currentb a m k) && is4 k && sib_off m a' x && (flipb a a' x || existsb (ip_eqb x) owed).
+
+Definition created (a : amap) (m : mac) (k : ip) : bool :=
+  match a k with Some e => negb (a_mac e =? m) | None => true end.
+
+Definition name_changes (r : rstate) (kd : nkind) (k : ip) (name : N) : bool :=
+  match r_map r k with
+  | Some _ => snd (merge (nget kd (r_names r k)) name)
+  | None => false
+  end.
+
 (* ---- per address: the notifications about address x that unit u owes (the "due changes") ---- *)
 Definition due (c : cfg) (r : rstate) (u : unit6) (x : ip) : list (ip * bool) :=
   match u with
@@ -45,9 +71,10 @@ Definition due (c : cfg) (r : rstate) (u : unit6) (x : ip) : list (ip * bool) :=
       | Some (m, k) =>
           if ip_eqb x k
           then (if negb (currentb (r_map r) m k) || existsb (ip_eqb k) (r_owed r) then [(k, true)] else [])
-          else (if flipb (r_map r) (sight m k now (r_map r)) x then [(x, false)] else [])
+          else (if sibling_due (r_map r) (sight m k now (r_map r)) (r_owed r) m k x then [(x, false)] else [])
       end
   | UPurge now => if flipb (r_map r) (age c now (r_map r)) x then [(x, false)] else []
+  | UName _ _ _ => []
   | UOther => []
   end.
 
@@ -56,11 +83,21 @@ Definition rnext (c : cfg) (r : rstate) (u : unit6) : rstate :=
   | UFrame f now =>
       match ref_event c f with
       | None => r
-      | Some (m, k) => {| r_map := sight m k now (r_map r); r_owed := remove_ip k (r_owed r) |}
+      | Some (m, k) =>
+          let a' := sight m k now (r_map r) in
+          {| r_map := a';
+             r_owed := filter (fun x => negb (ip_eqb x k) && negb (sibling_due (r_map r) a' (r_owed r) m k x)) (r_owed r);
+             r_names := fun x => if ip_eqb x k && created (r_map r) m k then names0 else r_names r x |}
       end
   | UPurge now =>
       {| r_map := age c now (r_map r);
-         r_owed := filter (fun x => negb (flipb (r_map r) (age c now (r_map r)) x)) (r_owed r) |}
+         r_owed := filter (fun x => negb (flipb (r_map r) (age c now (r_map r)) x)) (r_owed r);
+         r_names := r_names r |}
+  | UName kd k name =>
+      if name_changes r kd k name
+      then {| r_map := r_map r; r_owed := k :: r_owed r;
+              r_names := fun x => if ip_eqb x k then nset kd name (r_names r k) else r_names r x |}
+      else r
   | UOther => r
   end.
 
@@ -72,15 +109,17 @@ Definition expect (c : cfg) (dom : list ip) (r : rstate) (u : unit6) : list (ip 
        | None => []
        | Some (m, k) =>
            map (fun k' => (k', false))
-               (filter (fun k' => negb (ip_eqb k' k) && flipb (r_map r) (sight m k now (r_map r)) k') dom) ++
+               (filter (fun k' => negb (ip_eqb k' k) &&
+                                  sibling_due (r_map r) (sight m k now (r_map r)) (r_owed r) m k k') dom) ++
            (if negb (currentb (r_map r) m k) || existsb (ip_eqb k) (r_owed r) then [(k, true)] else [])
        end
    | UPurge now => map (fun k => (k, false)) (filter (flipb (r_map r) (age c now (r_map r))) dom)
+   | UName _ _ _ => []
    | UOther => []
    end, rnext c r u).
 
 Definition rinit (c : cfg) (now : Z) : rstate :=
-  {| r_map := ref_init c now; r_owed := [own_ip4 c; rt_ip4 c] |}.
+  {| r_map := ref_init c now; r_owed := [own_ip4 c; rt_ip4 c]; r_names := fun _ => names0 |}.
 
 (* the notifications about one address, in emission order *)
 Definition about (x : ip) (l : list (ip * bool)) : list (ip * bool) := filter (fun p => ip_eqb (fst p) x) l.
